@@ -265,7 +265,7 @@ pub fn power_strategy() -> BoxedStrategy<PowerCase> {
         c
     });
     let cut = prop_oneof![3 => any::<u16>(), 2 => Just(u16::MAX), 2 => Just(0u16)];
-    (cfg, prop::collection::vec(op_strategy(&gen), 1..gen.max_ops), any::<u16>(), prop::collection::vec(cut, 8), prop_oneof![3 => Just(0u16), 1 => 1u16..4096], prop::bool::weighted(0.25), any::<bool>())
+    (cfg, prop::collection::vec(op_strategy(&gen), 1..gen.max_ops), prop_oneof![4 => any::<u16>(), 1 => Just(65534u16)], prop::collection::vec(cut, 8), prop_oneof![3 => Just(0u16), 1 => 1u16..4096], prop::bool::weighted(0.25), any::<bool>())
         .prop_map(|(cfg, ops, crash_at, cuts, torn, lazy, second_crash_removes_indexes)| PowerCase { cfg, ops, crash_at, cuts, torn, lazy, second_crash_removes_indexes })
         .boxed()
 }
@@ -347,10 +347,11 @@ pub fn run_power(c: &PowerCase, dir: &Path, findings: &Findings) -> Result<CaseO
             ex.apply(i, op).await?;
         }
         let _ = ex.wait_msgs().await;
+        let before_close = session.events_len();
         let _ = ex.close().await;
         let events = session.events();
-        // 2. the crash state
-        let upto = 1 + crate::damage::pick(c.crash_at, events.len().max(1));
+        // 2. the crash state (selector 65534 = right before the final close, where the active blob has un-synced bytes)
+        let upto = if c.crash_at == 65534 { before_close.max(1) } else { 1 + crate::damage::pick(c.crash_at, events.len().max(1)) };
         let files = files_at(&events, upto);
         let _ = std::fs::create_dir_all(&crash);
         let mut labels = BTreeSet::new();
@@ -488,7 +489,7 @@ fn tail_sweep(thorough: bool) -> Vec<PowerCase> {
     let mut frac = 0u32;
     while frac <= 65535 {
         for validate_data in [false, true] {
-            out.push(PowerCase { cfg: Cfg { keylen: 8, validate_data, allow_dup: true, defer_ms: (2, 5), ..Cfg::default() }, ops: ops.clone(), crash_at: u16::MAX, cuts: vec![u16::MAX, u16::MAX, frac as u16, u16::MAX, u16::MAX, u16::MAX, u16::MAX, u16::MAX], torn: 0, lazy: false, second_crash_removes_indexes: frac % 2 == 0 });
+            out.push(PowerCase { cfg: Cfg { keylen: 8, validate_data, allow_dup: true, defer_ms: (2, 5), ..Cfg::default() }, ops: ops.clone(), crash_at: 65534, cuts: vec![u16::MAX, u16::MAX, frac as u16, u16::MAX, u16::MAX, u16::MAX, u16::MAX, u16::MAX], torn: 0, lazy: false, second_crash_removes_indexes: frac % 2 == 0 });
         }
         // the active blob is ~650 bytes long: a selector step of 100 moves the cut by about one byte
         frac += 100 * step;
